@@ -588,12 +588,20 @@ func runC13(c *Ctx) {
 	if f := ipSetParser; f != nil && len(f.Blocks) > 0 {
 		good := false
 		eachInstr(f, func(in ssa.Instruction) {
-			if ci, ok := in.(*ssa.Call); ok && callName(ci) == "(net/netip.Addr).Prefix" {
+			if ci, ok := in.(*ssa.Call); ok && (callName(ci) == "(net/netip.Addr).Prefix" || callName(ci) == "net/netip.PrefixFrom") {
 				if b, ok := ci.Call.Args[1].(*ssa.Call); ok && callName(b) == "(net/netip.Addr).BitLen" && b.Call.Args[0] == ci.Call.Args[0] {
 					good = true
 				}
 			}
 		})
+		// PrefixFrom(a, a.BitLen()) is a.Prefix(a.BitLen()): address and length of one value
+		sameFamilyFrom := func(cl *ssa.Call) bool {
+			if callName(cl) != "net/netip.PrefixFrom" {
+				return false
+			}
+			b, ok := cl.Call.Args[1].(*ssa.Call)
+			return ok && callName(b) == "(net/netip.Addr).BitLen" && b.Call.Args[0] == cl.Call.Args[0]
+		}
 		// every result is netip.ParsePrefix(s) as parsed, or addr.Prefix(addr.BitLen()) of the parsed address — nothing
 		// re-assembles a prefix from an address and a length that belong to different families
 		for _, r := range returnsOf(f) {
@@ -612,7 +620,7 @@ func runC13(c *Ctx) {
 				}
 			case *ssa.Call:
 				cn := callName(x)
-				if (cn == "net/netip.ParsePrefix" && x.Call.Args[0] == ssa.Value(f.Params[0])) || cn == "(net/netip.Addr).Prefix" {
+				if (cn == "net/netip.ParsePrefix" && x.Call.Args[0] == ssa.Value(f.Params[0])) || cn == "(net/netip.Addr).Prefix" || sameFamilyFrom(x) {
 					okRet = true
 				}
 			default:
